@@ -3,6 +3,7 @@ import SpecKitV.Lemmas.SchedLtf
 import SpecKitV.Lemmas.SchedNewVec
 import SpecKitV.Props.C02
 import SpecKitV.Props.SchedGen
+import SpecKitV.Props.VecGen
 import SpecKitV.Props.StartsGen
 import SpecKitV.Props.Utils
 
@@ -37,6 +38,11 @@ import SpecKitV.Props.Utils
 #print axioms gen_ltf_round_eq
 #print axioms gen_ltf_walk_eq_model
 #print axioms gen_new_walk_eq_model
+#print axioms Arr.memo_eq
+#print axioms Np.logspace_get
+#print axioms Np.searchsortedLeft_eq
+#print axioms gen_vec_walk_eq_model
+#print axioms gen_vec_walk_eq_plan
 #print axioms gen_ltf_starts_eq_model
 #print axioms gen_ltf_starts_safe
 #print axioms gen_round_half_up_eq_model
